@@ -1,6 +1,6 @@
 #!/usr/bin/env python3
 """Run the registered checks against every kept seeded change (scratch copy of /repo + patch; nothing is executed).
-usage: tools/run_seeds.py [-k C08] [--all-props]   -> prints a table and writes seeded/RESULTS.json"""
+usage: tools/run_seeds.py [-k C08] [--all-props | --props C01,C02] [-j 12]   -> prints a table and writes seeded/RESULTS.json"""
 import argparse, json, os, shutil, subprocess, sys, tempfile
 VERIF = os.path.dirname(os.path.dirname(os.path.abspath(__file__)))
 sys.path.insert(0, VERIF)
@@ -8,12 +8,33 @@ from mtsa.claims import CLAIMS
 
 def main():
     ap = argparse.ArgumentParser(); ap.add_argument("-k", default=""); ap.add_argument("--all-props", action="store_true")
+    ap.add_argument("--props", default=""); ap.add_argument("-j", type=int, default=12)
     a = ap.parse_args()
     res = {}
-    for d in sorted(os.listdir(os.path.join(VERIF, "seeded"))):
+    from concurrent.futures import ThreadPoolExecutor
+    dirs = [d for d in sorted(os.listdir(os.path.join(VERIF, "seeded")))
+            if os.path.isdir(os.path.join(VERIF, "seeded", d)) and any(k in d for k in a.k.split(","))]
+    with ThreadPoolExecutor(a.j) as ex:
+        list(ex.map(lambda d: one(a, d, res), dirs))
+    rp = os.path.join(VERIF, "seeded", "RESULTS.json")
+    allres = json.load(open(rp)) if os.path.exists(rp) else {}
+    for k_, v_ in res.items():
+        if a.all_props or k_ not in allres:
+            allres[k_] = v_
+        else:
+            allres[k_].setdefault("fired", {})
+            for p_ in v_.get("ran", []):
+                allres[k_]["fired"].pop(p_, None)
+            allres[k_]["fired"].update(v_.get("fired", {}))
+            if v_["property"] in v_.get("ran", []):
+                allres[k_]["detected_by_own_check"] = v_["detected_by_own_check"]
+                allres[k_]["claimed"] = v_["claimed"]
+    json.dump(allres, open(rp, "w"), indent=1, sort_keys=True)
+
+
+def one(a, d, res):
+    if True:
         sd = os.path.join(VERIF, "seeded", d)
-        if not os.path.isdir(sd) or a.k not in d:
-            continue
         meta = json.load(open(os.path.join(sd, "meta.json")))
         prop = meta["property"]
         tmp = tempfile.mkdtemp(prefix="mtsa-seed-")
@@ -24,8 +45,8 @@ def main():
             subprocess.run(["git", "init", "-q"], cwd=tmp)
             r = subprocess.run(["git", "apply", os.path.join(sd, "patch.diff")], cwd=tmp, capture_output=True, text=True)
             if r.returncode != 0:
-                res[d] = {"error": "patch does not apply: " + r.stderr[:200]}; print(d, "PATCH FAILS"); continue
-            props = sorted(CLAIMS) if a.all_props else ([prop] if prop in CLAIMS else [])
+                res[d] = {"property": prop, "error": "patch does not apply: " + r.stderr[:200]}; print(d, "PATCH FAILS"); return
+            props = sorted(CLAIMS) if a.all_props else (a.props.split(",") if a.props else ([prop] if prop in CLAIMS else []))
             fired = {}
             for p in props:
                 env = dict(os.environ, MTSA_REPO=tmp, MTSA_EVIDENCE_DIR=os.path.join(tmp, "evidence"))
@@ -33,17 +54,8 @@ def main():
                 v = [l.strip()[len("violation "):] for l in rr.stdout.splitlines() if l.strip().startswith("violation rule=")]
                 if rr.returncode != 0:
                     fired[p] = v or ["exit %d" % rr.returncode]
-            res[d] = {"property": prop, "claimed": prop in CLAIMS, "detected_by_own_check": prop in fired, "fired": fired}
+            res[d] = {"property": prop, "claimed": prop in CLAIMS, "detected_by_own_check": prop in fired, "fired": fired, "ran": props}
             print("%-8s own=%-5s %s" % (d, prop in fired, {k: [x.split(" at ")[0][:90] for x in v[:2]] for k, v in fired.items()}))
         finally:
             shutil.rmtree(tmp, ignore_errors=True)
-    rp = os.path.join(VERIF, "seeded", "RESULTS.json")
-    allres = json.load(open(rp)) if os.path.exists(rp) else {}
-    for k_, v_ in res.items():
-        if a.all_props or k_ not in allres:
-            allres[k_] = v_
-        else:
-            allres[k_].setdefault("fired", {}).update(v_.get("fired", {}))
-            allres[k_]["detected_by_own_check"] = v_["detected_by_own_check"]
-    json.dump(allres, open(rp, "w"), indent=1, sort_keys=True)
 main()
